@@ -1,16 +1,16 @@
-"""PROVED-class obligations of C11: see props/constructions2.py and props/resolves.py."""
+"""PROVED-class obligations of C15: see props/constructions2.py."""
 import z3
 
 from props import constructions2 as C2
-from props import resolves
+
 from vlib.pyvc import interp as I
 
 
 def proved(run):
     run.trust("pyvc symbolic interpreter over the real AST", f"z3 {z3.get_version_string()}")
-    resolves.c11_total_weight(run)
-    for f in (C2.c11_epsremove,):
+    pass
+    for f in (C2.c15,):
         try:
             f(run)
         except (I.OutOfSubset, KeyError) as e:
-            run.obligation("C11/" + f.__name__, "out-of-subset", detail=str(e))
+            run.obligation("C15/" + f.__name__, "out-of-subset", detail=str(e))
